@@ -13,7 +13,7 @@ use std::sync::OnceLock;
 
 /// Flip to true once the defects in generated-path handling of non-UTF-8 leftovers are repaired
 /// (DESIGN.md section 7, D2/D3): until then invalid UTF-8 pre-states are C08's business only.
-pub const DIRTY_INVALID_UTF8: bool = false;
+pub const DIRTY_INVALID_UTF8: bool = true;
 /// Dotted stems with the `.txtpp.ext` shape (D5) are C11's business until repaired.
 pub const DOTTED_STEMS: bool = false;
 
